@@ -3,9 +3,9 @@ package main
 // K3 (SSA, interprocedural): the auth middleware lets a request through only when both credentials matched.
 
 import (
-	"go/types"
 	"fmt"
 	"go/token"
+	"go/types"
 	"sort"
 	"strings"
 
